@@ -411,47 +411,50 @@ func checkUniqueNaming(c *core.Ctx, rule string) {
 			continue
 		}
 		c.SawFunc(spec[0] + "." + spec[1])
-		info := fn.Info()
 		n, bad := 0, ""
-		core.WalkStack(fn.Decl.Body, func(nd ast.Node, stack []ast.Node) bool {
-			as, ok := nd.(*ast.AssignStmt)
-			if !ok || as.Tok != token.ASSIGN || len(as.Lhs) != 1 || len(as.Rhs) != 1 {
-				return true
-			}
-			lid, ok := as.Lhs[0].(*ast.Ident)
-			if !ok {
-				return true
-			}
-			call, ok := as.Rhs[0].(*ast.CallExpr)
-			if !ok || p.CalleeName(info, call) != "fmt.Sprintf" || len(call.Args) < 3 {
-				return true
-			}
-			if tv := info.Types[call.Args[0]]; tv.Value == nil || !strings.Contains(tv.Value.ExactString(), "%s_%d") {
-				return true
-			}
-			n++
-			// the renaming must sit in a loop whose condition asks whether the candidate is taken
-			inLoop := false
-			for i := len(stack) - 1; i >= 0; i-- {
-				if _, isLit := stack[i].(*ast.FuncLit); isLit {
-					break
+		// the renaming may sit in the function itself or in a helper (a method of a small namer type) it calls
+		for _, h := range helperClosure(p, fn) {
+			info := h.Info()
+			core.WalkStack(h.Decl.Body, func(nd ast.Node, stack []ast.Node) bool {
+				as, ok := nd.(*ast.AssignStmt)
+				if !ok || as.Tok != token.ASSIGN || len(as.Lhs) != 1 || len(as.Rhs) != 1 {
+					return true
 				}
-				if fs, ok := stack[i].(*ast.ForStmt); ok && fs.Cond != nil {
-					ast.Inspect(fs.Cond, func(m ast.Node) bool {
-						if ix, ok := m.(*ast.IndexExpr); ok {
-							if _, isMap := info.TypeOf(ix.X).Underlying().(*types.Map); isMap && core.ExprStr(ix.Index) == lid.Name {
-								inLoop = true
+				lid, ok := as.Lhs[0].(*ast.Ident)
+				if !ok {
+					return true
+				}
+				call, ok := as.Rhs[0].(*ast.CallExpr)
+				if !ok || p.CalleeName(info, call) != "fmt.Sprintf" || len(call.Args) < 3 {
+					return true
+				}
+				if tv := info.Types[call.Args[0]]; tv.Value == nil || !strings.Contains(tv.Value.ExactString(), "%s_%d") {
+					return true
+				}
+				n++
+				// the renaming must sit in a loop whose condition asks whether the candidate is taken
+				inLoop := false
+				for i := len(stack) - 1; i >= 0; i-- {
+					if _, isLit := stack[i].(*ast.FuncLit); isLit {
+						break
+					}
+					if fs, ok := stack[i].(*ast.ForStmt); ok && fs.Cond != nil {
+						ast.Inspect(fs.Cond, func(m ast.Node) bool {
+							if ix, ok := m.(*ast.IndexExpr); ok {
+								if _, isMap := info.TypeOf(ix.X).Underlying().(*types.Map); isMap && core.ExprStr(ix.Index) == lid.Name {
+									inLoop = true
+								}
 							}
-						}
-						return true
-					})
+							return true
+						})
+					}
 				}
-			}
-			if !inLoop && bad == "" {
-				bad = fmt.Sprintf("%s: a taken name is made distinct by appending one counter value, without checking that the result is free: three columns named x become x, x_1, x_1 — the second and third collide, one of them vanishes from json output and an outer query reads the wrong column", p.Pos(as.Pos()))
-			}
-			return true
-		})
+				if !inLoop && bad == "" {
+					bad = fmt.Sprintf("%s: a taken name is made distinct by appending one counter value, without checking that the result is free: three columns named x become x, x_1, x_1 — the second and third collide, one of them vanishes from json output and an outer query reads the wrong column", p.Pos(as.Pos()))
+				}
+				return true
+			})
+		}
 		if bad == "" && n == 0 {
 			bad = "no renaming of duplicate column names found"
 		}
